@@ -362,6 +362,10 @@ def r5(cx, rule):
                 mon0.reentrant = (label == "review")
                 if announced and s0 not in ("Running", "Pending", "None"):
                     mon0.init = (s0, s0, True)
+                if label == "exec" and s0 in T.TERMINAL:
+                    # a task that is popped from the queue in a terminal state was closed by someone else while it waited:
+                    # whoever closed it has reported that ending (C01.R6) - a further emission in that state is a duplicate
+                    mon0.init = (s0, s0, True)
                 viol = eng.run(f, s0, mon0, **kw)
                 runs += 1
                 for payload, path in viol:
